@@ -85,3 +85,294 @@ theorem findTimer_setTimer_eq {s : AState} {t : Nat} {st x} (h : s.findTimer t =
 theorem findTimer_push {s : AState} {pl path tok t} : (s.push pl path tok).findTimer t = s.findTimer t := rfl
 
 end Hannibal
+
+namespace Hannibal
+open AState
+
+/-- the timer task is over (aborted, finished, or seen to end) -/
+def Timer.Dead (x : Timer) : Prop := x.st = .dead ∨ x.st = .ended
+
+def AllDead (s : AState) : Prop := ∀ x ∈ s.timers, x.Dead
+
+theorem allDead_killTimers (s : AState) : AllDead s.killTimers := by
+  intro x hx
+  unfold killTimers at hx
+  simp only at hx
+  obtain ⟨y, _, rfl⟩ := List.mem_map.mp hx
+  unfold Timer.Dead
+  split <;> simp_all
+
+theorem allDead_fail (s : AState) : AllDead s.fail := by
+  intro x hx; exact allDead_killTimers (s.cancelSlots _) x (by simpa [fail] using hx)
+
+theorem allDead_finish (s : AState) : AllDead s.finish := by
+  intro x hx; exact allDead_killTimers (s.cancelSlots _) x (by simpa [finish] using hx)
+
+theorem findTimer_mem {s : AState} {t x} (h : s.findTimer t = some x) : x ∈ s.timers ∧ x.id = t := by
+  unfold findTimer at h
+  exact ⟨List.mem_of_find?_eq_some h, by simpa using List.find?_some h⟩
+
+/-- `setTimer` on a list of dead timers with a dead state keeps all dead -/
+theorem allDead_setTimer {s : AState} (h : AllDead s) (t : Nat) (st : TimerSt) (hst : st = .dead ∨ st = .ended) :
+    AllDead (s.setTimer t st) := by
+  intro x hx
+  unfold setTimer at hx
+  simp only at hx
+  obtain ⟨y, hy, rfl⟩ := List.mem_map.mp hx
+  split
+  · exact hst
+  · exact h y hy
+
+/-- If every timer is dead before a step that is not a registration, every timer is dead after it. -/
+theorem allDead_step {w : Wiring} {s s' : AState} {l : Label} (hs : step w s l = some s') (h : AllDead s)
+    (hl : ∀ t k d, l ≠ .ctxTimer t k d) : AllDead s' := by
+  by_cases htt : l.touchesTimers = true
+  · cases l <;> simp [Label.touchesTimers] at htt
+    case ctxTimer t k d => exact absurd rfl (hl t k d)
+    case timerArm t due =>
+      simp only [step, stepTimerArm] at hs
+      cases hf : s.findTimer t with
+      | none => simp [hf] at hs
+      | some x =>
+        have hd := h x (findTimer_mem hf).1
+        simp only [hf] at hs
+        rcases hd with hd | hd <;> simp [hd] at hs <;> (split at hs <;> simp at hs)
+    case timerEnd t =>
+      simp only [step, stepTimerEnd] at hs
+      (repeat' (split at hs)) <;>
+        (first
+          | (simp at hs; done)
+          | (simp at hs; subst hs; exact allDead_setTimer h _ _ (.inr rfl)))
+    case fire t m =>
+      simp only [step, stepFire] at hs
+      cases hf : s.findTimer t with
+      | none => simp [hf] at hs
+      | some x =>
+        have hd := h x (findTimer_mem hf).1
+        simp only [hf, timerDue] at hs
+        rcases hd with hd | hd <;> simp [hd] at hs
+    case cbEnd cb ok =>
+      have hcb : cb = .stopped := by cases cb <;> simp_all [Label.touchesTimers]
+      subst hcb
+      simp only [step, stepCbEnd] at hs
+      split at hs
+      · simp at hs
+      · cases hp : s.phase <;> simp [hp] at hs
+        · -- `stopped` of a refresh
+          obtain ⟨_, rfl⟩ := hs
+          intro x hx
+          have hx' : x ∈ (s.refreshTimers w).timers := by simpa using hx
+          unfold refreshTimers at hx'
+          split at hx'
+          · exact allDead_killTimers s x hx'
+          · exact h x hx'
+        · -- final `stopped`
+          obtain ⟨_, rfl⟩ := hs
+          intro x hx; exact h x (by simpa using hx)
+    case cancel =>
+      simp only [step, stepCancel] at hs
+      split at hs
+      · simp at hs
+      · simp at hs; subst hs; intro x hx; exact allDead_fail s x (by simpa using hx)
+    case taskPanic =>
+      simp only [step, stepTaskPanic] at hs
+      (repeat' (split at hs)) <;>
+        (first
+          | (simp at hs; done)
+          | (simp at hs; subst hs; exact allDead_fail _))
+    case taskDone =>
+      simp only [step, stepTaskDone] at hs
+      (repeat' (split at hs)) <;>
+        (first
+          | (simp at hs; done)
+          | (simp at hs; subst hs; first | exact allDead_fail _ | exact allDead_finish _))
+  · have := step_timers_same hs (by simpa using htt)
+    intro x hx; rw [this] at hx; exact h x hx
+
+end Hannibal
+
+namespace Hannibal
+open AState
+
+theorem findTimer_of_timers_eq {s s' : AState} (h : s'.timers = s.timers) (t : Nat) :
+    s'.findTimer t = s.findTimer t := by unfold findTimer; rw [h]
+
+/-- A timer whose task is over never comes back. -/
+theorem dead_mono {w : Wiring} {s s' : AState} {l : Label} (hs : step w s l = some s')
+    {t : Nat} {x x' : Timer} (hx : s.findTimer t = some x) (hd : x.Dead) (hx' : s'.findTimer t = some x') :
+    x'.Dead := by
+  by_cases htt : l.touchesTimers = true
+  · cases l <;> simp [Label.touchesTimers] at htt
+    case ctxTimer t0 k d =>
+      simp only [step, stepCtxTimer] at hs
+      split at hs
+      · simp at hs; subst hs
+        unfold findTimer at hx hx'
+        simp only [List.find?_append, hx] at hx'
+        simp at hx'; subst hx'; exact hd
+      · simp at hs
+    case timerArm t0 due =>
+      simp only [step, stepTimerArm] at hs
+      by_cases hte : t = t0
+      · subst hte
+        simp only [hx] at hs
+        rcases hd with hd | hd <;> simp [hd] at hs <;> (split at hs <;> simp at hs)
+      · (repeat' (split at hs)) <;>
+          (first
+            | (simp at hs; done)
+            | (simp at hs; subst hs
+               rw [findTimer_setTimer_ne hte] at hx'
+               have : x' = x := by
+                 first
+                   | (rw [hx] at hx'; simpa using hx'.symm)
+                   | (rw [findTimer_push, hx] at hx'; simpa using hx'.symm)
+               rw [this]; exact hd))
+    case timerEnd t0 =>
+      simp only [step, stepTimerEnd] at hs
+      by_cases hte : t = t0
+      · subst hte
+        (repeat' (split at hs)) <;>
+          (first
+            | (simp at hs; done)
+            | (simp at hs; subst hs
+               rw [findTimer_setTimer_eq hx] at hx'
+               simp at hx'; subst hx'; exact .inr rfl))
+      · (repeat' (split at hs)) <;>
+          (first
+            | (simp at hs; done)
+            | (simp at hs; subst hs
+               rw [findTimer_setTimer_ne hte, hx] at hx'
+               simp at hx'; subst hx'; exact hd))
+    case fire t0 m =>
+      simp only [step, stepFire] at hs
+      by_cases hte : t = t0
+      · subst hte
+        simp only [hx, timerDue] at hs
+        rcases hd with hd | hd <;> simp [hd] at hs
+      · (repeat' (split at hs)) <;>
+          (first
+            | (simp at hs; done)
+            | (simp at hs; subst hs
+               rw [findTimer_setTimer_ne hte] at hx'
+               have : x' = x := by
+                 first
+                   | (rw [hx] at hx'; simpa using hx'.symm)
+                   | (rw [findTimer_push, hx] at hx'; simpa using hx'.symm)
+               rw [this]; exact hd))
+    case cbEnd cb ok =>
+      have hcb : cb = .stopped := by cases cb <;> simp_all [Label.touchesTimers]
+      subst hcb
+      simp only [step, stepCbEnd] at hs
+      split at hs
+      · simp at hs
+      · cases hp : s.phase <;> simp [hp] at hs
+        · obtain ⟨_, rfl⟩ := hs
+          by_cases hr : w.refreshResetsTimers = true
+          · have hm := (findTimer_mem hx').1
+            have hm' : x' ∈ s.killTimers.timers := by simpa [refreshTimers, hr] using hm
+            exact allDead_killTimers s x' hm'
+          · have ht : ∀ s2 : AState, s2.timers = (s.refreshTimers w).timers → s2.findTimer t = s.findTimer t := by
+              intro s2 h2
+              unfold findTimer; rw [h2]; simp [refreshTimers, hr]
+            have := ht _ (rfl : _ = (s.refreshTimers w).timers)
+            erw [this, hx] at hx'; simp at hx'; subst hx'; exact hd
+        · obtain ⟨_, rfl⟩ := hs
+          have : (findTimer { s with phase := Phase.exiting true, busy := none } t) = s.findTimer t := rfl
+          rw [this, hx] at hx'; simp at hx'; subst hx'; exact hd
+    case cancel =>
+      simp only [step, stepCancel] at hs
+      split at hs
+      · simp at hs
+      · simp at hs; subst hs
+        exact allDead_fail s x' (by simpa using (findTimer_mem hx').1)
+    case taskPanic =>
+      simp only [step, stepTaskPanic] at hs
+      (repeat' (split at hs)) <;>
+        (first
+          | (simp at hs; done)
+          | (simp at hs; subst hs; exact allDead_fail _ x' (findTimer_mem hx').1))
+    case taskDone =>
+      simp only [step, stepTaskDone] at hs
+      (repeat' (split at hs)) <;>
+        (first
+          | (simp at hs; done)
+          | (simp at hs; subst hs; first
+              | exact allDead_fail _ x' (findTimer_mem hx').1
+              | exact allDead_finish _ x' (findTimer_mem hx').1))
+  · have := findTimer_of_timers_eq (step_timers_same hs (by simpa using htt)) t
+    rw [this, hx] at hx'; simp at hx'; subst hx'; exact hd
+
+end Hannibal
+
+namespace Hannibal
+open AState
+
+def AState.timerIds (s : AState) : List Nat := s.timers.map (·.id)
+
+@[simp] theorem setTimer_ids (s : AState) (t st) : (s.setTimer t st).timerIds = s.timerIds := by
+  unfold timerIds setTimer
+  simp only [List.map_map]
+  congr 1; funext x; simp only [Function.comp]; split <;> rfl
+
+@[simp] theorem killTimers_ids (s : AState) : s.killTimers.timerIds = s.timerIds := by
+  unfold timerIds killTimers
+  simp only [List.map_map]
+  congr 1; funext x; simp only [Function.comp]; split <;> rfl
+
+@[simp] theorem push_ids (s : AState) (pl path tok) : (s.push pl path tok).timerIds = s.timerIds := rfl
+@[simp] theorem cancelSlots_ids (s : AState) (l) : (s.cancelSlots l).timerIds = s.timerIds := rfl
+@[simp] theorem cancelSlots_timers (s : AState) (l) : (s.cancelSlots l).timers = s.timers := rfl
+@[simp] theorem fail_ids (s : AState) : s.fail.timerIds = s.timerIds := by
+  have := killTimers_ids (s.cancelSlots (s.curSlot ++ s.chan.queue.filterMap (fun e => slotOf e.pl)))
+  simpa [fail, timerIds] using this
+@[simp] theorem finish_ids (s : AState) : s.finish.timerIds = s.timerIds := by
+  have := killTimers_ids (s.cancelSlots (s.chan.queue.filterMap (fun e => slotOf e.pl)))
+  simpa [finish, timerIds] using this
+@[simp] theorem refreshTimers_ids (w) (s : AState) : (s.refreshTimers w).timerIds = s.timerIds := by
+  unfold refreshTimers; split <;> simp
+
+@[simp] theorem answer_timers (s : AState) (sl m) : (s.answer sl m).timers = s.timers := by
+  unfold answer; split <;> rfl
+@[simp] theorem killTimers_ids' (s : AState) :
+    List.map (fun x => x.id) s.killTimers.timers = List.map (fun x => x.id) s.timers := killTimers_ids s
+@[simp] theorem setTimer_ids' (s : AState) (t st) :
+    List.map (fun x => x.id) (s.setTimer t st).timers = List.map (fun x => x.id) s.timers := setTimer_ids s t st
+@[simp] theorem fail_ids' (s : AState) :
+    List.map (fun x => x.id) s.fail.timers = List.map (fun x => x.id) s.timers := fail_ids s
+@[simp] theorem finish_ids' (s : AState) :
+    List.map (fun x => x.id) s.finish.timers = List.map (fun x => x.id) s.timers := finish_ids s
+
+theorem timerIds_of_eq {s s' : AState} (h : s'.timers = s.timers) : s'.timerIds = s.timerIds := by
+  unfold timerIds; rw [h]
+
+/-- only a registration adds a timer -/
+theorem step_timer_ids {w : Wiring} {s s' : AState} {l : Label} (hs : step w s l = some s')
+    (hl : ∀ t k d, l ≠ .ctxTimer t k d) : s'.timerIds = s.timerIds := by
+  by_cases htt : l.touchesTimers = true
+  · cases l <;> simp [Label.touchesTimers] at htt
+    case ctxTimer t k d => exact absurd rfl (hl t k d)
+    all_goals
+      (unfold_steps hs
+       (repeat' (split at hs)) <;>
+        (first
+          | (simp at hs; done)
+          | (simp at hs; subst hs; first
+              | rfl
+              | (simp; done)
+              | (simp [AState.timerIds]; done))))
+  · exact timerIds_of_eq (step_timers_same hs (by simpa using htt))
+
+theorem findTimer_none_iff {s : AState} {t : Nat} : s.findTimer t = none ↔ t ∉ s.timerIds := by
+  unfold findTimer timerIds
+  rw [List.find?_eq_none]
+  simp only [List.mem_map, not_exists, not_and]
+  constructor
+  · intro h x hx he; have := h x hx; simp [he] at this
+  · intro h x hx; simp; intro he; exact h x hx he
+
+theorem findTimer_none_mono {w : Wiring} {s s' : AState} {l : Label} (hs : step w s l = some s')
+    (hl : ∀ t k d, l ≠ .ctxTimer t k d) {t : Nat} (h : s.findTimer t = none) : s'.findTimer t = none := by
+  rw [findTimer_none_iff] at h ⊢
+  rw [step_timer_ids hs hl]; exact h
+
+end Hannibal
